@@ -47,6 +47,216 @@ pub struct Case {
     pub pending_zero: bool,
     pub max_incoming: u8,
     pub ops: Vec<Op>,
+    /// companion through the public API: a real service configured with `ip_limit` (the filters are
+    /// installed by Discv5::new). When present, `ops` is empty.
+    #[serde(default)]
+    pub svc: Option<SvcIp>,
+}
+
+#[derive(Clone, Copy, Debug, PartialEq, Eq, Hash, Serialize, Deserialize)]
+pub enum SNet {
+    Hot(u8),
+    Filler(u8),
+}
+
+#[derive(Clone, Debug, PartialEq, Eq, Hash, Serialize, Deserialize)]
+pub enum SStep {
+    /// the handler reports a session with the node (its record of version `seq`)
+    Session { k: KSel, net: SNet, seq: u8, incoming: bool },
+    Disconnect { k: KSel },
+    AddEnr { k: KSel, net: SNet, seq: u8 },
+    /// a lookup for the id of `target`; its first FINDNODE is answered with these records (those at
+    /// a distance that was not requested are left out)
+    LookupAnswer { target: KSel, recs: Vec<(KSel, SNet, u8)> },
+}
+
+#[derive(Clone, Debug, PartialEq, Eq, Hash, Serialize, Deserialize)]
+pub struct SvcIp {
+    /// 0 IPv4, 1 IPv6, 2 dual stack
+    pub mode: u8,
+    pub steps: Vec<SStep>,
+}
+
+thread_local! {
+    static SRECS: RefCell<HashMap<(u32, SNet, u8, u8), Enr>> = RefCell::new(HashMap::new());
+}
+
+/// A signed record of pool key `key` with an IPv4 address in the given /24 and - for IPv6 and
+/// dual-stack services - an IPv6 socket as well (so that it is contactable there).
+fn srec(key: u32, net: SNet, seq: u8, mode: u8) -> Enr {
+    SRECS.with(|m| {
+        if let Some(e) = m.borrow().get(&(key, net, seq, mode)) {
+            return e.clone();
+        }
+        let host = (key % 250 + 1) as u8;
+        let ip4 = match net {
+            SNet::Hot(n) => std::net::Ipv4Addr::new(10, 0, n % 3, host),
+            SNet::Filler(n) => std::net::Ipv4Addr::new(10, 1, n % 8, host),
+        };
+        let mut b = Enr::builder();
+        b.seq(seq as u64).ip4(ip4).udp4(9000 + (key % 1000) as u16);
+        if mode != 0 {
+            b.ip6(std::net::Ipv6Addr::new(0x2001, 0xdb8, 0, 16, 0, 0, (key >> 16) as u16, key as u16)).udp6(9000 + (key % 1000) as u16);
+        }
+        let e = b.build(&keys::key(key)).expect("record");
+        m.borrow_mut().insert((key, net, seq, mode), e.clone());
+        e
+    })
+}
+
+fn limits_of(t: &mut Table, when: &str) -> Option<(String, String)> {
+    let mut table_counts: HashMap<[u8; 3], usize> = HashMap::new();
+    for (i, b) in t.buckets_iter().enumerate() {
+        let mut bc: HashMap<[u8; 3], usize> = HashMap::new();
+        for n in b.iter() {
+            if let Some(s) = subnet(&n.value) {
+                *bc.entry(s).or_insert(0) += 1;
+                *table_counts.entry(s).or_insert(0) += 1;
+            }
+        }
+        if let Some((s, c)) = bc.iter().find(|(_, c)| **c > 2) {
+            return Some((format!("ipfilter/bucket-limit-exceeded/through-the-service{when}"), format!("bucket {i} of the service's table holds {c} nodes of {}.{}.{}.0/24", s[0], s[1], s[2])));
+        }
+    }
+    if let Some((s, c)) = table_counts.iter().find(|(_, c)| **c > 10) {
+        return Some((format!("ipfilter/table-limit-exceeded/through-the-service{when}"), format!("the service's table holds {c} nodes of {}.{}.{}.0/24", s[0], s[1], s[2])));
+    }
+    None
+}
+
+async fn run_svc(c: &SvcIp, rep: &mut CaseReport) -> Option<(String, String)> {
+    use crate::engines::svc::{reset_globals, Mode, Svc, SvcConfig};
+    use discv5::{
+        verif::{ConnectionDirection as Dir, HandlerIn, HandlerOut, RequestBody, Response, ResponseBody},
+        NodeAddress,
+    };
+    reset_globals();
+    let mode = c.mode % 3;
+    let mut s = Svc::new(SvcConfig { key_idx: 0, mode: [Mode::Ip4, Mode::Ip6, Mode::Dual][mode as usize], ip_limit: true, ..Default::default() }).await;
+    rep.class(["service-with-ip-limit/ipv4", "service-with-ip-limit/ipv6", "service-with-ip-limit/dual-stack"][mode as usize]);
+    let addr_of = |e: &Enr| -> std::net::SocketAddr {
+        if mode == 0 {
+            std::net::SocketAddr::V4(e.udp4_socket().expect("udp4"))
+        } else {
+            std::net::SocketAddr::V6(e.udp6_socket().expect("udp6"))
+        }
+    };
+    let mut near_limit = false;
+    for st in &c.steps {
+        match st {
+            SStep::Session { k, net, seq, incoming } => {
+                let key = resolve(*k);
+                let e = srec(key, *net, *seq, mode);
+                let a = addr_of(&e);
+                s.inject(HandlerOut::Established(e, a, if *incoming { Dir::Incoming } else { Dir::Outgoing })).await;
+            }
+            SStep::Disconnect { k } => {
+                let _ = s.d.disconnect_node(&ids::node_id(&keys::id_of(resolve(*k))));
+            }
+            SStep::AddEnr { k, net, seq } => {
+                let _ = s.d.add_enr(srec(resolve(*k), *net, *seq, mode));
+            }
+            SStep::LookupAnswer { target, recs } => {
+                let tid = keys::id_of(resolve(*target));
+                s.take_outbox();
+                let handle = tokio::spawn(s.d.find_node(ids::node_id(&tid)));
+                s.settle().await;
+                let req = s.take_outbox().into_iter().find_map(|m| match m {
+                    HandlerIn::Request(contact, r) => match r.body {
+                        RequestBody::FindNode { distances } => Some((contact, r.id.clone(), distances)),
+                        _ => None,
+                    },
+                    _ => None,
+                });
+                if let Some((contact, id, ds)) = req {
+                    let rid = contact.node_id().raw();
+                    let nodes: Vec<Enr> = recs
+                        .iter()
+                        .take(4)
+                        .map(|(k, net, seq)| srec(resolve(*k), *net, *seq, mode))
+                        .filter(|e| {
+                            let eid = e.node_id().raw();
+                            eid != rid && ds.contains(&(ids::log2(&rid, &eid) as u64))
+                        })
+                        .collect();
+                    if !nodes.is_empty() {
+                        rep.class("service-with-ip-limit/records-learnt-from-a-NODES-answer");
+                    }
+                    let na = NodeAddress::new(contact.socket_addr(), contact.node_id());
+                    s.inject(HandlerOut::Response(na, Box::new(Response { id, body: ResponseBody::Nodes { total: 1, nodes } }))).await;
+                }
+                handle.abort();
+                s.settle().await;
+            }
+        }
+        s.take_outbox();
+        s.take_events();
+        if let Some(p) = crate::runner::take_panic() {
+            return Some((format!("panic-in-task/{}", p.split(':').take(2).collect::<Vec<_>>().join(":")), p));
+        }
+        // ---- the limits on what is stored, and on what would be stored once waiting nodes move up
+        let mut t: Table = s.d.kbuckets();
+        if let Some(v) = limits_of(&mut t, "") {
+            return Some(v);
+        }
+        let waiting: Vec<usize> = t.buckets_iter().enumerate().filter(|(_, b)| b.pending().is_some()).map(|(i, _)| i).collect();
+        if !waiting.is_empty() {
+            rep.class("service-with-ip-limit/bucket-with-a-waiting-node");
+            for i in &waiting {
+                let _ = t.verif_expire_pending(*i);
+            }
+            let _ = t.iter().count();
+            if let Some(v) = limits_of(&mut t, "/after-promotion-of-waiting-nodes") {
+                return Some(v);
+            }
+        }
+        let mut counts: HashMap<[u8; 3], usize> = HashMap::new();
+        for b in t.buckets_iter() {
+            for n in b.iter() {
+                if let Some(sn) = subnet(&n.value) {
+                    *counts.entry(sn).or_insert(0) += 1;
+                }
+            }
+        }
+        if counts.values().any(|c| *c >= 9) {
+            near_limit = true;
+        }
+    }
+    s.d.shutdown();
+    rep.nontrivial = near_limit;
+    None
+}
+
+fn svc_strategy() -> BoxedStrategy<SvcIp> {
+    let snet = || prop_oneof![6 => (0u8..3).prop_map(SNet::Hot), 3 => (0u8..8).prop_map(SNet::Filler)];
+    let small = |i: u16| i.wrapping_mul(4099).wrapping_add(17);
+    let step = prop_oneof![
+        12 => (any_ksel(), snet(), 1u8..4, any::<bool>()).prop_map(|(k, net, seq, incoming)| SStep::Session { k, net, seq, incoming }),
+        2 => any_ksel().prop_map(|k| SStep::Disconnect { k }),
+        3 => (any_ksel(), snet(), 1u8..4).prop_map(|(k, net, seq)| SStep::AddEnr { k, net, seq }),
+        3 => (any_ksel(), proptest::collection::vec((any_ksel(), snet(), 1u8..4), 1..4)).prop_map(|(target, recs)| SStep::LookupAnswer { target, recs }),
+    ];
+    let free = (0u8..3, proptest::collection::vec(step.clone(), 1..60)).prop_map(|(mode, steps)| SvcIp { mode, steps });
+    // by construction: a /24 at the table limit, a full bucket with a waiting node, and a newer
+    // record of the WAITING node (moved into that /24) learnt from a NODES answer
+    let scenario = (0u8..3, 0u8..NBOFF, 0u8..3, proptest::collection::vec(step, 0..6)).prop_map(move |(mode, b, hot, tail)| {
+        let mut v = Vec::new();
+        for boff in (0..NBOFF).filter(|x| *x != b) {
+            for i in 0..2u16 {
+                v.push(SStep::Session { k: KSel { boff, idx: small(i) }, net: SNet::Hot(hot), seq: 1, incoming: false });
+            }
+        }
+        for i in 0..16u16 {
+            v.push(SStep::Session { k: KSel { boff: b, idx: small(i) }, net: SNet::Filler((i / 2) as u8), seq: 1, incoming: false });
+        }
+        v.push(SStep::Disconnect { k: KSel { boff: b, idx: small(0) } });
+        let waiting = KSel { boff: b, idx: small(20) };
+        v.push(SStep::Session { k: waiting, net: SNet::Hot((hot + 1) % 3), seq: 1, incoming: false });
+        v.push(SStep::LookupAnswer { target: waiting, recs: vec![(waiting, SNet::Hot(hot), 2)] });
+        v.extend(tail);
+        SvcIp { mode, steps: v }
+    });
+    prop_oneof![3 => free, 1 => scenario].boxed()
 }
 
 thread_local! {
@@ -384,19 +594,27 @@ impl Property for C16 {
         let n = tier.pick(150usize, 250usize);
         let frag = prop_oneof![60 => op_strategy().prop_map(|o| vec![o]), 1 => pending_move_scenario()];
         let mixed = (any::<bool>(), prop_oneof![4 => Just(16u8), 1 => 0u8..=16], proptest::collection::vec(frag, 1..n))
-            .prop_map(|(pending_zero, max_incoming, frags)| Case { pending_zero, max_incoming, ops: frags.into_iter().flatten().collect() });
+            .prop_map(|(pending_zero, max_incoming, frags)| Case { pending_zero, max_incoming, ops: frags.into_iter().flatten().collect(), svc: None });
         // the scenario on an empty table, followed by a short random tail
         let focused = (any::<bool>(), pending_move_scenario(), proptest::collection::vec(op_strategy(), 0..12)).prop_map(|(pending_zero, mut ops, tail)| {
             ops.extend(tail);
-            Case { pending_zero, max_incoming: 16, ops }
+            Case { pending_zero, max_incoming: 16, ops, svc: None }
         });
-        prop_oneof![8 => mixed, 1 => focused].boxed()
+        let svc = svc_strategy().prop_map(|sv| Case { pending_zero: false, max_incoming: 16, ops: vec![], svc: Some(sv) });
+        prop_oneof![80 => mixed, 10 => focused, 4 => svc].boxed()
     }
     fn run(case: &Case) -> CaseReport {
+        if let Some(sv) = &case.svc {
+            let mut rep = CaseReport::default();
+            if let Some((s, d)) = crate::engines::svc::run_blocking(run_svc(sv, &mut rep)) {
+                rep.fail(s, d);
+            }
+            return rep;
+        }
         run_case(case)
     }
     fn rule() -> String {
-        "histories (<=150 quick / <=250 thorough ops; bulk fills expanded) of the filter-respecting table API (insert_or_update, update_node, update_node_status, remove, iter, entry lookup, closest_keys, nodes_by_distances, forced pending expiry) on KBucketsTable<NodeId, Enr> built with the crate's own IpTableFilter/IpBucketFilter; keys are real key hashes from a deterministic pool of 2048 keys in buckets 250..255; records are signed and drawn from 3 hot /24 subnets, 8 filler subnets, IPv6-only (ordinary, IPv4-mapped into a hot subnet, ::1) and address-less shapes, with seq 1..3 so that updates move nodes between subnets. After every elementary op: per /24 <=2 stored nodes per bucket and <=10 in the table; a record without IPv4 is never refused by a filter. Non-trivial = some subnet reached 9 table entries or 2 entries in a full bucket and a later op carried a record with an IPv4 address.".into()
+        "histories (<=150 quick / <=250 thorough ops; bulk fills expanded) of the filter-respecting table API (insert_or_update, update_node, update_node_status, remove, iter, entry lookup, closest_keys, nodes_by_distances, forced pending expiry) on KBucketsTable<NodeId, Enr> built with the crate's own IpTableFilter/IpBucketFilter; keys are real key hashes from a deterministic pool of 2048 keys in buckets 250..255; records are signed and drawn from 3 hot /24 subnets, 8 filler subnets, IPv6-only (ordinary, IPv4-mapped into a hot subnet, ::1) and address-less shapes, with seq 1..3 so that updates move nodes between subnets. After every elementary op: per /24 <=2 stored nodes per bucket and <=10 in the table; a record without IPv4 is never refused by a filter. One case in 24 goes through the public API: a real service (IPv4 / IPv6 / dual stack) configured with ip_limit behind a scripted handler gets session reports, disconnects, add_enr calls and NODES answers with records from the hot and filler subnets (plus a by-construction scenario: a /24 at the table limit, a full bucket with a waiting node, and a newer record of the waiting node moved into that /24 learnt from a NODES answer); after every step a clone of its table (Discv5::kbuckets) must respect the limits, also after every waiting node has been promoted in the clone. Non-trivial = some subnet reached 9 table entries or 2 entries in a full bucket and a later op carried a record with an IPv4 address.".into()
     }
     fn assumptions() -> Vec<String> {
         vec![
